@@ -199,4 +199,35 @@ class Shipped(Part):
         return {"nontrivial": nontrivial, "classes": ["shipped", "metrics" if case["metrics"] else "plain"]}
 
 
-PARTS = [Main(), Shipped()]
+class Metrics(Part):
+    name = "metrics"
+    rule = ("Hypothesis draws 1-3 product Einsums with a constructed architecture/bindings/format (D_metrics: lazy/eager buffets, "
+            "caches, all intersector types, sequencers, shape and occupancy partitioning); the metrics-mode text must parse and be "
+            "closed under the same analysis (names such as eager_*_read sets, iteration-number variables, intersector objects, "
+            "metrics/formats/bindings/traces dictionaries must all be bound before use). Non-trivial as above.")
+
+    def budget(self, tier):
+        return {"quick": dict(examples=200, shards=3, seconds=80),
+                "thorough": dict(examples=2500, shards=8, seconds=900)}[tier]
+
+    def strategy(self, tier):
+        from .. import gen_metrics
+        return gen_metrics.case_metrics(n_min=1, n_max=3, with_inputs=False)
+
+    def describe(self, case):
+        return {"yaml": S.to_yaml(case["spec"]), "mode": "metrics"}
+
+    def run_case(self, case):
+        if case.get("mapping_rejected"):
+            raise Skip("rejected_by_compiler", "mapping")
+        spec = case["spec"]
+        hf = oracle.compile_or_skip(spec, metrics=True, crash_is_violation=False)
+        text = str(hf)
+        tree = assert_closed(text, spec, what="metrics-mode program")
+        cl = ["family=metrics", "mode=metrics"]
+        if "eager" in text:
+            cl.append("eager")
+        return {"nontrivial": pyscope.loop_depth(tree) >= 2 and pyscope.non_update_in_loop(tree) >= 1, "classes": cl}
+
+
+PARTS = [Main(), Shipped(), Metrics()]
